@@ -1,6 +1,7 @@
 """C14 - sub-ontologies (clauses: SIBLING inclusive modifier predicate, KIND loops, COVER copied term, ROLE induced links)"""
 import re
 from engines import kinds_in_type, kind_of_segment, KIND_FIELDS, KIND_FIELD_OWNERS
+from engines import check_required_steps
 from engines import check_complete_iteration
 from prov import Prov, params_of, field_names
 from props.shared import membership_sites, term_fields
@@ -112,6 +113,12 @@ def run(ck, prog, ctx):
         ck.ob("KIND", "K3/sub_ontology/" + m, K in seen_kinds, "sub_ontology %s %s records" % ("re-annotates" if K in seen_kinds else "never re-annotates", K), where=sub.where())
 
     check_complete_iteration(ck, "KIND", prog, [SUB], "the leaves, retained terms and annotation records")
+
+    check_required_steps(ck, "KIND", prog, sub, [("re-annotate " + K, (lambda mm: (lambda t: (t.callee.res or "").endswith("::" + mm)))(m)) for m, K in sorted(ANNOT.items())] + [
+        ("copy every retained term", lambda t: (t.callee.res or "").endswith("LooseCollection>::add_term")),
+        ("link retained parents", lambda t: (t.callee.res or "").endswith("::add_parent_unchecked") or (t.callee.res or "").endswith("AllTerms>::add_parent")),
+        ("connect_all_terms", lambda t: (t.callee.res or "").endswith("::connect_all_terms")),
+        ("calculate_information_content", lambda t: (t.callee.res or "").endswith("::calculate_information_content"))])
 
     # ------------------------------------------------------------------ COVER: copied term
     getters = set()
